@@ -23,6 +23,7 @@ from . import boot
 
 VERIF = boot.VERIF_DIR
 KNOWN_FILE = os.path.join(VERIF, "known_findings.json")
+QUICK_SLACK = 3
 DEFAULT_BUDGET = {"quick": (4, 20, 400), "thorough": (16, 240, 100000)}
 # thorough tiers also run the repository's own test suite under the property's passive monitors (second,
 # independent workload). C07 is left out: its monitors recompute sympy matrix powers/exponentials for every
@@ -374,6 +375,11 @@ def main(argv=None):
     budget = a.budget or budget
     max_cases = a.max_cases or max_cases
     nshards = max(1, min(nshards, os.cpu_count() or 1))
+    if a.tier == "quick" and not a.budget:
+        # the quick tier is defined by its number of cases (the same cases whatever the load of the machine, so that
+        # what it can detect does not depend on how busy the machine is); the CPU budget of the module is what an idle
+        # machine needs for them, and the limit actually enforced is QUICK_SLACK times that
+        budget = budget * QUICK_SLACK
     piggy = (a.tier == "thorough" and (getattr(mod, "PIGGYBACK", False) or prop in PIGGYBACK_PROPS) and not os.environ.get("VERIF_NO_PIGGYBACK")) \
         or a.piggyback
     results = run_shards(prop, a.tier, seed, nshards, budget, max_cases, piggyback=piggy)
